@@ -8,7 +8,7 @@
    CatchScheduler(inner, h); h is ANY handler verdict function, hs ANY history of
    arbitrary action trees (raise positions anywhere, any depth). *)
 From RxVerif Require Import Base.Prelude Core.VTime Core.VTimeFacts Core.Periodic Core.PeriodicFacts
-  Core.CatchSched Core.CatchSchedFacts Core.CatchSchedSolo.
+  Core.CatchSched Core.CatchSchedFacts Core.CatchSchedSolo Core.CatchSchedSim Core.PeriodicLast.
 
 (* Every exception raised by an action (at any depth of scheduling through the
    scheduler handed to the action, periodic actions included) is passed to the
@@ -135,3 +135,80 @@ Example C42_witness_periodic_solo :
   = [(0, 2); (1, 4); (2, 6)]
   /\ raw_tab ([(0, PNext [] 0%N 1); (1, PNext [] 0%N 2)], PRaise [] 1) = true.
 Proof. vm_compute. split; reflexivity. Qed.
+
+(* ---- "behave exactly as on the wrapped scheduler", for programs that DO raise --------------
+   (Core/CatchSchedSim.v: the two runs executed side by side.)  ANY handler, ANY raw history
+   (raising actions at any depth, raising periodic actions, top-level calls that raise, cancels,
+   stop, sleep, several start/advance_to calls), any fuel, both clock kinds and both code versions:
+   what the harness observes of the run through CatchScheduler(inner, h), minus the handler calls,
+   is what it observes of the same history on the inner scheduler -- for the whole run if the
+   handler never answered True, and otherwise up to the first call it answered True to (where
+   the CatchScheduler swallows the exception and the inner scheduler lets it escape). *)
+Theorem C42_simulates_until_first_accept : forall c fuel h c0 hs, forallb raw_t hs = true ->
+  let oc := observe (run_catch c fuel h (init c0) hs) in
+  let oi := observe (run c fuel (init c0) hs) in
+  ((forall e, In (OHandler e) oc -> h e = false) /\ filter not_handler oc = oi) \/
+  (exists pre e post rest, oc = pre ++ OHandler e :: post /\ h e = true /\
+     (forall e', In (OHandler e') pre -> h e' = false) /\ oi = filter not_handler pre ++ rest).
+Proof. exact catch_simulates_until_accept. Qed.
+Print Assumptions C42_simulates_until_first_accept.
+
+Theorem C42_simulates_if_all_rejected : forall c fuel h c0 hs, forallb raw_t hs = true ->
+  (forall e, In (OHandler e) (observe (run_catch c fuel h (init c0) hs)) -> h e = false) ->
+  filter not_handler (observe (run_catch c fuel h (init c0) hs)) = observe (run c fuel (init c0) hs).
+Proof. exact catch_simulates_if_all_rejected. Qed.
+Print Assumptions C42_simulates_if_all_rejected.
+
+(* the reject-all handler: the CatchScheduler is observationally the inner scheduler *)
+Theorem C42_reject_all_simulates : forall c fuel c0 hs, forallb raw_t hs = true ->
+  filter not_handler (observe (run_catch c fuel (fun _ => false) (init c0) hs)) = observe (run c fuel (init c0) hs).
+Proof. exact catch_reject_all_simulates. Qed.
+Print Assumptions C42_reject_all_simulates.
+
+(* non-vacuity: a raw history with a raising action at depth 2 and a raising periodic action;
+   rejected everywhere: same observations plus the handler call ... *)
+Definition ex_c42_sim : list tcmd :=
+  [ TDo (SSched (Abs 1) 0 [SSched (Rel 1) 1 [SNote 7; SRaise 2; SNote 8]; SNote 9]);
+    TDo (SPeriodic 2 ([(0, PNext [] 0%N 1); (1, PNext [] 0%N 2)], PRaise [] 2) 0);
+    TStart; TDo (SSched (Rel 1) 5 [SNote 3]); TAdvTo 20 ].
+Example C42_witness_reject_all :
+  forallb raw_t ex_c42_sim = true /\
+  observe (run (Cfg Numeric false) 10 (init 0) ex_c42_sim)
+  = [OClock 0; OClock 0; ORun 0 1; ONote 9; OTick 0 0 2; ORun 1 2; ONote 7; OExc 2; OClock 2; OClock 2; OClock 2] /\
+  observe (run_catch (Cfg Numeric false) 10 (fun _ => false) (init 0) ex_c42_sim)
+  = [OClock 0; OClock 0; ORun 0 1; ONote 9; OTick 0 0 2; ORun 1 2; ONote 7; OHandler 2; OExc 2; OClock 2; OClock 2; OClock 2].
+Proof. vm_compute. repeat split; reflexivity. Qed.
+
+(* ... and the runs part at the first accepted exception ([hv] accepts 1): the inner scheduler
+   lets 1 escape from start(), the CatchScheduler goes on to labels 2 and 3 *)
+Example C42_witness_parting :
+  observe (run (Cfg Numeric false) 10 (init 0) ex_c42)
+  = [OClock 0; OClock 0; OClock 0; ORun 0 1; ONote 9; ORun 1 2; ONote 7] ++ [OExc 1; OClock 2] /\
+  observe (run_catch (Cfg Numeric false) 10 hv (init 0) ex_c42)
+  = [OClock 0; OClock 0; OClock 0; ORun 0 1; ONote 9; ORun 1 2; ONote 7] ++ OHandler 1 ::
+    [ORun 2 5; ORun 3 5; OHandler 2; OExc 2; OClock 5].
+Proof. vm_compute. split; reflexivity. Qed.
+
+(* "Handler returns True => periodic work stops", as ONE whole-run statement (Core/PeriodicLast.v):
+   in EVERY history through the CatchScheduler, after a call of a periodic action that did not
+   return a next state -- in particular one whose exception the handler accepted ([PHandled _ _ true]
+   in the wrapped table) or rejected -- the subscription is disposed and never called again
+   (log newest first: l1 is what happened after that call) *)
+Theorem C42_failed_call_is_last : forall c fuel h c0 hs l1 l0 pid st k pi,
+  let s := state_of (run_catch c fuel h (init c0) hs) in
+  log s = l1 ++ ETick pid st k :: l0 -> nth_error (pers s) pid = Some pi ->
+  match plookup (p_fn pi) st with PNext _ _ _ => False | _ => True end ->
+  ticks_of pid l1 = [] /\ In (EPDispose pid) l1.
+Proof. exact catch_failed_call_is_last. Qed.
+Print Assumptions C42_failed_call_is_last.
+
+(* hypotheses satisfiable: the third call raises 1, [hv] accepts it, the run goes on (label 5 runs
+   at 7, the clock reaches 20) and the action is not called again *)
+Example C42_witness_failed_call :
+  let f : ptable := ([(0, PNext [] 0%N 1); (1, PNext [] 0%N 2)], PRaise [] 1) in
+  let r := run_catch (Cfg Numeric false) 20 hv (init 0)
+             [TDo (SPeriodic 2 f 0); TAdvTo 5; TDo (SSched (Rel 2) 5 [SNote 3]); TAdvTo 20] in
+  option_map p_fn (nth_error (pers (state_of r)) 0) = Some (cwrap_tab hv f) /\
+  plookup (cwrap_tab hv f) 2 = PHandled [] 1 true /\
+  observe r = [OClock 0; OTick 0 0 2; OTick 0 1 4; OClock 5; OClock 5; OTick 0 2 6; OHandler 1; ORun 5 7; ONote 3; OClock 20].
+Proof. vm_compute. repeat split; reflexivity. Qed.
